@@ -918,3 +918,350 @@ Proof.
   intros P. apply combine_mods_perm; [now apply Permutation_map|].
   apply Forall_forall. intros g I. apply in_map_iff in I as [g0 [<- _]]. apply canon_Qred.
 Qed.
+
+(* ------------------------------------------------------------------ *)
+(* C02: what the combined value is, operator by operator                *)
+
+(* values of the stacking (non-aggregated) modifications of one operator *)
+Definition vals_stack (mods : list gmod) (op : Z) (p : bool) : list Q :=
+  map g_val (filter (fun g => Bool.eqb (g_pen g) p && zeqb op (g_op g))
+                    (filter (fun g => Z.eqb (g_mode g) ModAggregateMode_stack) mods)).
+(* the members of one aggregation group, in gathering order *)
+Definition group_members (mods : list gmod) (mode : Z) (k : Z * option Z) : list (Q * bool) :=
+  map (fun g => (g_val g, g_pen g)) (filter (fun g => Z.eqb (g_mode g) mode && aggkey_eqb k (g_op g, g_key g)) mods).
+(* one survivor per group: (operator, (value, penalised)) *)
+Definition survivors (mods : list gmod) (mode : Z) (pick : Q * bool -> list (Q * bool) -> Q * bool) :=
+  flat_map (resl pick) (aggs mode mods).
+Definition surv_vals (sv : list (Z * (Q * bool))) (op : Z) (p : bool) : list Q :=
+  map (fun t => fst (snd t)) (filter (fun t : Z * (Q * bool) => Bool.eqb (snd (snd t)) p && zeqb op (fst t)) sv).
+
+(* penalised and penalty-free values that reach one operator *)
+Definition pen_vals (mods : list gmod) (op : Z) : list Q :=
+  vals_stack mods op true
+  ++ surv_vals (survivors mods ModAggregateMode_minimum pick_min) op true
+  ++ surv_vals (survivors mods ModAggregateMode_maximum pick_max) op true.
+Definition free_vals (mods : list gmod) (op : Z) : list Q :=
+  vals_stack mods op false
+  ++ surv_vals (survivors mods ModAggregateMode_minimum pick_min) op false
+  ++ surv_vals (survivors mods ModAggregateMode_maximum pick_max) op false.
+
+Lemma group_members_spec mods mode k : getl aggkey_eqb (aggs mode mods) k = group_members mods mode k.
+Proof.
+  unfold aggs, group_members.
+  rewrite (fold_left_ext' _ (fstep aggkey_eqb (fun g => Z.eqb (g_mode g) mode) (fun g => (g_op g, g_key g))
+                                   (fun g => (g_val g, g_pen g)))) by reflexivity.
+  rewrite (getl_fold aggkey_eqb aggkey_eqb_ok). reflexivity.
+Qed.
+
+Lemma filter_negb_eqb {A} (f : A -> bool) (k : A -> bool) l :
+  filter (fun g => negb (f g) && k g) l = filter (fun g => Bool.eqb (f g) false && k g) l.
+Proof. apply filter_ext. intros a. destruct (f a); reflexivity. Qed.
+Lemma filter_id_eqb {A} (f : A -> bool) (k : A -> bool) l :
+  filter (fun g => f g && k g) l = filter (fun g => Bool.eqb (f g) true && k g) l.
+Proof. apply filter_ext. intros a. destruct (f a); reflexivity. Qed.
+
+Lemma app3_eq {A} (a b c a' b' c' : list A) : a = a' -> b = b' -> c = c' -> a ++ b ++ c = a' ++ b' ++ c'.
+Proof. now intros -> -> ->. Qed.
+Lemma map_filter_ext {A B} (h : A -> B) (f g : A -> bool) l :
+  (forall x, f x = g x) -> map h (filter f l) = map h (filter g l).
+Proof. intros H. now rewrite (filter_ext f g H). Qed.
+
+(* the two stores after the aggregation stages *)
+Lemma acc_spec mods op :
+  let acc := fold_left (use_agg pick_max) (aggs ModAggregateMode_maximum mods)
+                       (fold_left (use_agg pick_min) (aggs ModAggregateMode_minimum mods) (stage_stack mods)) in
+  getl zeqb (fst acc) op = free_vals mods op /\ getl zeqb (snd acc) op = pen_vals mods op.
+Proof.
+  cbv zeta. rewrite !use_agg_fold. cbn [fst snd]. unfold stage_stack. cbn [fst snd].
+  rewrite (fold_left_ext' (fun st g => if g_pen g then st else stack_add st (g_op g) (g_val g))
+                          (fstep zeqb (fun g => negb (g_pen g)) g_op g_val))
+    by (intros u x; unfold fstep; destruct (g_pen x); reflexivity).
+  rewrite (fold_left_ext' (fun st g => if g_pen g then stack_add st (g_op g) (g_val g) else st)
+                          (fstep zeqb g_pen g_op g_val)) by reflexivity.
+  rewrite !(getl_fold zeqb zeqb_ok). unfold free_vals, pen_vals, vals_stack, surv_vals, survivors, getl. cbn [al_get].
+  rewrite !app_nil_l, <- !app_assoc.
+  split; (apply app3_eq; apply map_filter_ext;
+          [intros g; destruct (g_pen g); reflexivity
+          |intros [o [v b]]; destruct b; reflexivity
+          |intros [o [v b]]; destruct b; reflexivity]).
+Qed.
+
+Lemma acc_wf mods :
+  let acc := fold_left (use_agg pick_max) (aggs ModAggregateMode_maximum mods)
+                       (fold_left (use_agg pick_min) (aggs ModAggregateMode_minimum mods) (stage_stack mods)) in
+  wf zeqb (fst acc) /\ wf zeqb (snd acc).
+Proof.
+  cbv zeta. rewrite !use_agg_fold. cbn [fst snd]. unfold stage_stack. cbn [fst snd].
+  rewrite (fold_left_ext' (fun st g => if g_pen g then st else stack_add st (g_op g) (g_val g))
+                          (fstep zeqb (fun g => negb (g_pen g)) g_op g_val))
+    by (intros u x; unfold fstep; destruct (g_pen x); reflexivity).
+  rewrite (fold_left_ext' (fun st g => if g_pen g then stack_add st (g_op g) (g_val g) else st)
+                          (fstep zeqb g_pen g_op g_val)) by reflexivity.
+  split; repeat (apply wf_fold; [exact zeqb_ok|]); apply wf_nil.
+Qed.
+
+Section GAL3.
+  Context {K V : Type} (eqb : K -> K -> bool).
+  Hypothesis eqb_ok : forall a b, eqb a b = true <-> a = b.
+  Lemma filter_key_absent (st : list (K * list V)) k :
+    ~ In k (keys st) -> filter (fun kv => eqb k (fst kv)) st = [].
+  Proof.
+    unfold keys. induction st as [|[k' v] r IH]; cbn; intros H; [reflexivity|].
+    destruct (eqb k k') eqn:E; [apply eqb_ok in E; subst; exfalso; apply H; now left|].
+    apply IH. intros I. apply H. now right.
+  Qed.
+  Lemma filter_key (st : list (K * list V)) k : NoDup (keys st) ->
+    filter (fun kv => eqb k (fst kv)) st = match al_get eqb st k with Some l => [(k, l)] | None => [] end.
+  Proof.
+    unfold keys. induction st as [|[k' v] r IH]; cbn; intros N; [reflexivity|].
+    inversion N as [|? ? NI N']; subst. destruct (eqb k k') eqn:E.
+    - apply eqb_ok in E; subst k'. f_equal. now apply filter_key_absent.
+    - now apply IH.
+  Qed.
+End GAL3.
+
+(* every operator's final list: the penalty-free values, then one combined value for the penalised ones *)
+Definition op_vals (pen : list Q) (mods : list gmod) (op : Z) : list Q :=
+  free_vals mods op ++ match pen_vals mods op with [] => [] | l => [penalize_values pen l] end.
+
+Lemma final_spec pen mods op :
+  getl zeqb (stage_final pen (fold_left (use_agg pick_max) (aggs ModAggregateMode_maximum mods)
+                                (fold_left (use_agg pick_min) (aggs ModAggregateMode_minimum mods) (stage_stack mods)))) op
+  = op_vals pen mods op.
+Proof.
+  set (acc := fold_left _ _ _).
+  destruct (acc_spec mods op) as [E1 E2]. destruct (acc_wf mods) as [_ W2]. fold acc in E1, E2, W2.
+  unfold stage_final, op_vals.
+  rewrite (fold_left_ext' (fun st (kv : Z * list Q) => stack_add st (fst kv) (penalize_values pen (snd kv)))
+                          (fstep zeqb (fun _ => true) fst (fun kv => penalize_values pen (snd kv)))) by reflexivity.
+  rewrite (getl_fold zeqb zeqb_ok), E1. f_equal.
+  rewrite (filter_ext _ (fun kv : Z * list Q => zeqb op (fst kv))) by reflexivity.
+  rewrite (filter_key zeqb zeqb_ok (snd acc) op (proj1 W2)).
+  rewrite <- E2. unfold getl. destruct (al_get zeqb (snd acc) op) as [l|] eqn:G; [|reflexivity].
+  cbn [map snd]. destruct l as [|x r]; [|reflexivity].
+  (* an entry of a well-formed store is never empty *)
+  exfalso. destruct W2 as [_ NE]. apply (NE op).
+  - apply (get_in_keys zeqb zeqb_ok). rewrite G. discriminate.
+  - unfold getl. now rewrite G.
+Qed.
+
+(* the operators that occur at all *)
+Lemma final_keys pen mods op :
+  In op (map fst (stage_final pen (fold_left (use_agg pick_max) (aggs ModAggregateMode_maximum mods)
+                                      (fold_left (use_agg pick_min) (aggs ModAggregateMode_minimum mods) (stage_stack mods)))))
+  <-> op_vals pen mods op <> [].
+Proof.
+  rewrite <- final_spec. set (S := stage_final _ _).
+  assert (W : wf zeqb S).
+  { subst S. destruct (acc_wf mods) as [W1 _]. unfold stage_final.
+    rewrite (fold_left_ext' (fun st (kv : Z * list Q) => stack_add st (fst kv) (penalize_values pen (snd kv)))
+                            (fstep zeqb (fun _ => true) fst (fun kv => penalize_values pen (snd kv)))) by reflexivity.
+    apply wf_fold; [exact zeqb_ok|exact W1]. }
+  apply (in_keys_getl zeqb zeqb_ok S op W).
+Qed.
+
+(* C02: the value is the base value taken through the operators in their fixed order, each applied to
+   exactly the values [op_vals] lists for it *)
+
+(* ------------------------------------------------------------------ *)
+(* folding over the operators that occur = folding over all operators   *)
+From Coq Require Import Sorting.Sorted.
+
+Lemma zinsert_perm x l : Permutation (zinsert x l) (x :: l).
+Proof.
+  induction l as [|y r IH]; cbn; [apply Permutation_refl|].
+  destruct (x <=? y)%Z; [apply Permutation_refl|].
+  eapply Permutation_trans; [apply perm_skip; exact IH|apply perm_swap].
+Qed.
+Lemma zsort_permutation l : Permutation (zsort l) l.
+Proof.
+  induction l as [|x l IH]; cbn; [constructor|].
+  eapply Permutation_trans; [apply zinsert_perm|now apply perm_skip].
+Qed.
+Lemma zinsert_sorted x l : StronglySorted Z.le l -> StronglySorted Z.le (zinsert x l).
+Proof.
+  induction 1 as [|y r S IH F]; cbn; [repeat constructor|].
+  destruct (x <=? y)%Z eqn:E.
+  - apply Z.leb_le in E. constructor; [now constructor|]. constructor; [exact E|].
+    rewrite Forall_forall in *. intros z Iz. specialize (F z Iz). lia.
+  - apply Z.leb_gt in E. constructor; [exact IH|].
+    rewrite Forall_forall in *. intros z Iz.
+    apply (Permutation_in _ (zinsert_perm x r)) in Iz. destruct Iz as [<-|Iz]; [lia|auto].
+Qed.
+Lemma zsort_sorted l : StronglySorted Z.le (zsort l).
+Proof. induction l as [|x l IH]; cbn; [constructor|now apply zinsert_sorted]. Qed.
+
+Lemma strict_of_nodup l : StronglySorted Z.le l -> NoDup l -> StronglySorted Z.lt l.
+Proof.
+  induction 1 as [|y r S IH F]; intros N; [constructor|].
+  inversion N as [|? ? NI N']; subst. constructor; [auto|].
+  rewrite Forall_forall in *. intros z Iz. specialize (F z Iz).
+  assert (z <> y) by (intros ->; contradiction). lia.
+Qed.
+
+Section SkipFold.
+  Context {A : Type} (F : A -> Z -> A).
+  Lemma fold_skip l b : (forall x, In x l -> forall v, F v x = v) -> fold_left F l b = b.
+  Proof.
+    revert b. induction l as [|x l IH]; intros b H; cbn; [reflexivity|].
+    rewrite (H x) by now left. apply IH. intros y I. apply H. now right.
+  Qed.
+  Lemma fold_two_sorted l1 : forall l2 b,
+    StronglySorted Z.lt l1 -> StronglySorted Z.lt l2 ->
+    (forall x, In x l1 -> ~ In x l2 -> forall v, F v x = v) ->
+    (forall x, In x l2 -> ~ In x l1 -> forall v, F v x = v) ->
+    fold_left F l1 b = fold_left F l2 b.
+  Proof.
+    induction l1 as [|a r1 IH1]; intros l2 b S1 S2 H1 H2.
+    - cbn. symmetry. apply fold_skip. intros x I. apply H2; [exact I|intros []].
+    - inversion S1 as [|? ? S1' F1]; subst. rewrite Forall_forall in F1.
+      revert b. induction l2 as [|x r2 IH2]; intros b.
+      + change (fold_left F [] b) with b. apply fold_skip. intros y I. apply H1; [exact I|intros []].
+      + inversion S2 as [|? ? S2' F2]; subst. rewrite Forall_forall in F2.
+        destruct (Z.lt_trichotomy a x) as [L|[E|G]].
+        * (* a is absent from l2 *)
+          assert (Na : ~ In a (x :: r2)).
+          { intros [->|I]; [lia|]. specialize (F2 a I). lia. }
+          change (fold_left F (a :: r1) b) with (fold_left F r1 (F b a)). rewrite (H1 a (or_introl eq_refl) Na).
+          apply IH1; [exact S1'|exact S2| |].
+          -- intros y I N. apply H1; [now right|exact N].
+          -- intros y I N. apply H2; [exact I|]. intros [->|I2]; [contradiction|contradiction].
+        * subst x. cbn [fold_left]. apply IH1; [exact S1'|exact S2'| |].
+          -- intros y I N. apply H1; [now right|]. intros [->|I2]; [specialize (F1 y I); lia|contradiction].
+          -- intros y I N. apply H2; [now right|]. intros [->|I2]; [specialize (F2 y I); lia|contradiction].
+        * (* x is absent from l1 *)
+          assert (Nx : ~ In x (a :: r1)).
+          { intros [->|I]; [lia|]. specialize (F1 x I). lia. }
+          change (fold_left F (x :: r2) b) with (fold_left F r2 (F b x)). rewrite (H2 x (or_introl eq_refl) Nx).
+          apply IH2; [exact S2'| |].
+          -- intros y I N. apply H1; [exact I|]. intros [->|I2]; [contradiction|contradiction].
+          -- intros y I N. apply H2; [now right|exact N].
+  Qed.
+End SkipFold.
+
+Lemma members_sorted : StronglySorted Z.lt ModOperator_members.
+Proof. unfold ModOperator_members. repeat (constructor; [|repeat constructor; lia]). constructor. Qed.
+
+Lemma opl_unknown hig v op l : ~ In op ModOperator_members -> opl hig v op l = v.
+Proof.
+  intros N. unfold opl. destruct l as [|x r]; [reflexivity|].
+  assert (H : forall cls, (forall z, In z cls -> In z ModOperator_members) -> mem zeqb cls op = false).
+  { intros cls Hc. destruct (mem zeqb cls op) eqn:E; [|reflexivity]. exfalso. apply N, Hc.
+    clear -E. induction cls as [|c r IH]; cbn in E; [discriminate|].
+    apply orb_true_iff in E as [E|E]; [left; symmetry; now apply Z.eqb_eq|right; auto]. }
+  rewrite (H ASSIGNMENT_OPERATORS), (H ADDITION_OPERATORS), (H MULTIPLICATION_OPERATORS); [reflexivity| | |];
+    intros z Iz; cbn in Iz; cbn; intuition.
+Qed.
+
+(* C02: the value is the base value taken through ALL operators in their fixed order; each operator is
+   applied to the penalty-free values that reach it (stacking ones, plus the survivor of every minimum /
+   maximum group that is not penalised) and to ONE combined value of the penalised ones (the stacking-
+   penalty chain over the penalised stacking values and the penalised survivors). An operator that
+   nothing reaches leaves the value alone. *)
+Theorem combine_mods_by_operator pen hig base mods :
+  combine_mods pen hig base mods =
+  fold_left (fun value op => opl hig value op (op_vals pen mods op)) ModOperator_members base.
+Proof.
+  rewrite combine_mods_staged. unfold finish. set (S := stage_final _ _).
+  rewrite (fold_left_ext' (fun value op => opl hig value op (getl zeqb S op))
+                          (fun value op => opl hig value op (op_vals pen mods op)))
+    by (intros v op; subst S; now rewrite final_spec).
+  assert (W : wf zeqb S).
+  { subst S. destruct (acc_wf mods) as [W1 _]. unfold stage_final.
+    rewrite (fold_left_ext' (fun st (kv : Z * list Q) => stack_add st (fst kv) (penalize_values pen (snd kv)))
+                            (fstep zeqb (fun _ => true) fst (fun kv => penalize_values pen (snd kv)))) by reflexivity.
+    apply wf_fold; [exact zeqb_ok|exact W1]. }
+  apply fold_two_sorted.
+  - apply strict_of_nodup; [apply zsort_sorted|].
+    eapply Permutation_NoDup; [apply Permutation_sym, zsort_permutation|apply W].
+  - apply members_sorted.
+  - intros op _ N v. now apply opl_unknown.
+  - intros op _ N v.
+    assert (E : op_vals pen mods op = []).
+    { destruct (op_vals pen mods op) eqn:E; [reflexivity|]. exfalso. apply N.
+      apply (Permutation_in _ (Permutation_sym (zsort_permutation _))).
+      apply (final_keys pen mods op). rewrite E. discriminate. }
+    rewrite E. reflexivity.
+Qed.
+
+Lemma filter_all {A} (f : A -> bool) l : (forall x, In x l -> f x = true) -> filter f l = l.
+Proof.
+  induction l as [|x l IH]; cbn; intros H; [reflexivity|]. rewrite (H x) by now left.
+  f_equal. apply IH. intros y I. apply H. now right.
+Qed.
+Lemma filter_none {A} (f : A -> bool) l : (forall x, In x l -> f x = false) -> filter f l = [].
+Proof.
+  induction l as [|x l IH]; cbn; intros H; [reflexivity|]. rewrite (H x) by now left.
+  apply IH. intros y I. apply H. now right.
+Qed.
+
+(* readable special cases *)
+Corollary combine_only_post_mul pen hig base mods :
+  (forall g, In g mods -> g_op g = ModOperator_post_mul /\ g_mode g = ModAggregateMode_stack /\ g_pen g = false) ->
+  combine_mods pen hig base mods = fold_left (fun a x => a * (1 + x)) (map g_val mods) base.
+Proof.
+  intros H. rewrite combine_mods_by_operator.
+  assert (Hst : filter (fun g => Z.eqb (g_mode g) ModAggregateMode_stack) mods = mods).
+  { apply filter_all. intros g I. destruct (H g I) as (_ & -> & _). reflexivity. }
+  assert (Ag : forall mode, mode <> ModAggregateMode_stack -> aggs mode mods = []).
+  { intros mode Hm. unfold aggs. assert (G : forall l st, (forall g, In g l -> In g mods) ->
+       fold_left (fun st g => if Z.eqb (g_mode g) mode then agg_add st (g_op g, g_key g) (g_val g, g_pen g) else st) l st = st).
+    { induction l as [|g l IH]; intros st Hl; cbn; [reflexivity|].
+      destruct (H g (Hl g (or_introl eq_refl))) as (_ & E & _). rewrite E.
+      destruct (Z.eqb ModAggregateMode_stack mode) eqn:Eq; [apply Z.eqb_eq in Eq; congruence|].
+      apply IH. intros x I. apply Hl. now right. }
+    apply G. auto. }
+  assert (OV : forall op, op_vals pen mods op = if Z.eqb op ModOperator_post_mul then map g_val mods else []).
+  { intros op. unfold op_vals, free_vals, pen_vals, survivors, vals_stack.
+    rewrite !Ag by discriminate. cbn [flat_map surv_vals filter map]. rewrite !app_nil_r, Hst.
+    assert (P : filter (fun g => Bool.eqb (g_pen g) true && zeqb op (g_op g)) mods = []).
+    { apply filter_none. intros g I. destruct (H g I) as (_ & _ & ->). reflexivity. }
+    rewrite P. cbn [map]. rewrite app_nil_r.
+    destruct (Z.eqb op ModOperator_post_mul) eqn:E.
+    - apply Z.eqb_eq in E. subst op. f_equal. apply filter_all. intros g I.
+      destruct (H g I) as (-> & _ & ->). reflexivity.
+    - assert (N : filter (fun g => Bool.eqb (g_pen g) false && zeqb op (g_op g)) mods = []).
+      { apply filter_none. intros g I. destruct (H g I) as (-> & _ & _).
+        unfold zeqb. rewrite E. apply andb_false_r. }
+      now rewrite N. }
+  rewrite (fold_left_ext' _ (fun value op => opl hig value op (if Z.eqb op ModOperator_post_mul then map g_val mods else [])))
+    by (intros v op; now rewrite OV).
+  destruct mods as [|g0 r]; [reflexivity|].
+  cbn. reflexivity.
+Qed.
+
+(* the survivor of a group is extremal *)
+Section Extremal.
+  Context {A : Type} (lt : A -> A -> bool).
+  Hypothesis lt_irrefl : forall a, lt a a = false.
+  Hypothesis lt_trans : forall a b c, lt a b = true -> lt b c = true -> lt a c = true.
+  Lemma fold_kmin_least l : forall cur seen,
+    (forall y, In y seen -> lt y cur = false) ->
+    forall y, In y (seen ++ cur :: l) -> lt y (fold_left (kmin lt) l cur) = false.
+  Proof.
+    induction l as [|x l IH]; intros cur seen Hs y Iy; cbn [fold_left].
+    - apply in_app_or in Iy as [I|[<-|[]]]; [now apply Hs|apply lt_irrefl].
+    - apply (IH (kmin lt cur x) (x :: cur :: seen)).
+      + intros z Iz. unfold kmin. destruct (lt x cur) eqn:E.
+        * destruct Iz as [<-|[<-|I]].
+          -- apply lt_irrefl.
+          -- destruct (lt cur x) eqn:E2; [|reflexivity].
+             pose proof (lt_trans cur x cur E2 E) as X. rewrite lt_irrefl in X. discriminate.
+          -- destruct (lt z x) eqn:E2; [|reflexivity].
+             pose proof (lt_trans z x cur E2 E) as X. rewrite (Hs z I) in X. discriminate.
+        * destruct Iz as [<-|[<-|I]]; [exact E|apply lt_irrefl|now apply Hs].
+      + apply in_app_or in Iy as [I|[<-|[<-|I]]].
+        * apply in_or_app. left. right. right. exact I.
+        * apply in_or_app. left. right. now left.
+        * apply in_or_app. left. now left.
+        * apply in_or_app. right. now right.
+  Qed.
+End Extremal.
+
+Lemma pick_min_least x r y : In y (x :: r) -> key_lt y (pick_min x r) = false.
+Proof. intros I. rewrite pick_min_fold. apply (fold_kmin_least key_lt key_lt_irrefl key_lt_trans r x []); [intros ? []|exact I]. Qed.
+Lemma pick_max_greatest x r y : In y (x :: r) -> key_lt (flipk (pick_max x r)) (flipk y) = false.
+Proof.
+  intros I. rewrite pick_max_fold.
+  apply (fold_kmin_least key_gt key_gt_irrefl key_gt_trans r x []); [intros ? []|exact I].
+Qed.
